@@ -64,7 +64,7 @@ def finish(rewards, players, xtl, finals, meta=None):
 ACTIONS = ["a", "b", "c", "d", "e", "f"]
 
 
-def stopping_game(rng, n_inner=None, dead_frac=None, max_deg=4, reward_max=4):
+def stopping_game(rng, n_inner=None, dead_frac=None, max_deg=4, reward_max=4, extra_finals=0.0):
     """Stopping game by construction.
 
     Inner states 0..m-1, then `lose` = m (absorbing, reward 0), `win` = m+1 (the only final,
@@ -115,7 +115,13 @@ def stopping_game(rng, n_inner=None, dead_frac=None, max_deg=4, reward_max=4):
     players += [PR, PR]
     rewards += [0, 0]
     xtl += [[(Fr(1), lose)], [(Fr(1), win)]]
-    return finish(rewards, players, xtl, [win], {"family": "stopping", "m": m})
+    finals = [win]
+    if m >= 2 and rng.random() < extra_finals:
+        # additional final states of any owner, NOT absorbing (legal; outside the "stopping" quantifier
+        # of C02/C14, inside the one of C01/C03/C04/C05/C06/C13)
+        finals += rng.sample(range(0 if rng.random() < 0.2 else 1, m), rng.randint(1, min(2, m - 1)))
+        rng.shuffle(finals)
+    return finish(rewards, players, xtl, finals, {"family": "stopping", "m": m, "extra_finals": len(finals) - 1})
 
 
 def dead_shape_game(rng, kind, pattern, front=None, dead_reward=None, selfloop=None):
